@@ -24,6 +24,7 @@ import (
 	"git.sr.ht/~rockorager/vaxis/vxfw"
 	"git.sr.ht/~rockorager/vaxis/vxfw/button"
 	"git.sr.ht/~rockorager/vaxis/vxfw/center"
+	"git.sr.ht/~rockorager/vaxis/vxfw/list"
 	"git.sr.ht/~rockorager/vaxis/vxfw/richtext"
 	"git.sr.ht/~rockorager/vaxis/vxfw/text"
 	"git.sr.ht/~rockorager/vaxis/vxfw/textfield"
@@ -218,12 +219,30 @@ type seg struct {
 }
 
 type wspec struct {
-	kind  byte // C T R F B
+	kind  byte // C T R F B D
 	soft  bool
 	st    int
 	text  string
 	segs  []seg
 	child *wspec
+	// D (list.Dynamic): the items its Builder offers, DrawCursor, Gap; drawn = indices of the items
+	// whose Draw was called, in call order (filled in by the run)
+	kids   []*wspec
+	cursor bool
+	gap    int
+	drawn  []int
+}
+
+// recW records that Dynamic drew item idx.
+type recW struct {
+	vxfw.Widget
+	owner *wspec
+	idx   int
+}
+
+func (w *recW) Draw(ctx vxfw.DrawContext) (vxfw.Surface, error) {
+	w.owner.drawn = append(w.owner.drawn, w.idx)
+	return w.Widget.Draw(ctx)
 }
 
 func (w *wspec) build() vxfw.Widget {
@@ -247,8 +266,30 @@ func (w *wspec) build() vxfw.Widget {
 		b := button.New(w.text, nil)
 		b.Style.Default = tagStyle(w.st)
 		return b
+	case 'D':
+		w.drawn = nil
+		return &list.Dynamic{
+			DrawCursor: w.cursor,
+			Gap:        w.gap,
+			Builder: func(i uint, cursor uint) vxfw.Widget {
+				if i >= uint(len(w.kids)) {
+					return nil
+				}
+				return &recW{Widget: w.kids[i].build(), owner: w, idx: int(i)}
+			},
+		}
 	}
 	panic("bad widget kind")
+}
+
+func (w *wspec) hasDynamic() bool {
+	if w == nil {
+		return false
+	}
+	if w.kind == 'D' {
+		return true
+	}
+	return w.child.hasDynamic()
 }
 
 func (w *wspec) shape() string {
@@ -260,6 +301,11 @@ func (w *wspec) shape() string {
 			return string(w.kind) + "s"
 		}
 		return string(w.kind) + "h"
+	case 'D':
+		if w.cursor {
+			return "Dc"
+		}
+		return "Dn"
 	}
 	return string(w.kind)
 }
@@ -267,19 +313,11 @@ func (w *wspec) shape() string {
 // hasAlloc: the tree contains a widget that allocates Max.Width x Max.Height cells.
 func (w *wspec) hasAlloc() bool {
 	for x := w; x != nil; x = x.child {
-		if x.kind == 'C' || x.kind == 'B' {
+		if x.kind == 'C' || x.kind == 'B' || x.kind == 'D' {
 			return true
 		}
 	}
 	return false
-}
-
-func (w *wspec) leaf() *wspec {
-	x := w
-	for x.child != nil {
-		x = x.child
-	}
-	return x
 }
 
 const lineCap = 70000
@@ -421,21 +459,69 @@ func hs(soft bool) string {
 	return "h"
 }
 
-// tokens of the widget tree (prefix notation) with the leaf's lines filled in.
-func (w *wspec) tokens(lines string) string {
+type tokRes struct {
+	nLines   int
+	capped   bool
+	panicked bool
+	msg      string
+	leaves   int
+}
+
+// tokens of the widget tree (prefix notation); every leaf's lines are what the real scanner yields
+// for the constraint that leaf receives (Center and Button hand Max on, Dynamic hands its items
+// Max.Width - colOffset x unbounded). For a Dynamic only the items it drew are listed.
+func (w *wspec) tokens(ctx vxfw.DrawContext, res *tokRes) string {
+	leaf := func() string {
+		lines, n, capped, p, msg := scanLines(w, ctx)
+		if res.leaves == 0 {
+			res.nLines = n
+		}
+		res.leaves++
+		res.capped = res.capped || capped
+		if p && !res.panicked {
+			res.panicked, res.msg = true, msg
+		}
+		return lines
+	}
 	switch w.kind {
 	case 'C':
-		return "C " + w.child.tokens(lines)
+		return "C " + w.child.tokens(ctx, res)
 	case 'T':
-		return fmt.Sprintf("T %s %d %s %s", hs(w.soft), w.st, hx.Hex(w.text), lines)
+		return fmt.Sprintf("T %s %d %s %s", hs(w.soft), w.st, hx.Hex(w.text), leaf())
 	case 'R':
-		return fmt.Sprintf("R %s %s %s", hs(w.soft), hexSegs(w.segs), lines)
+		return fmt.Sprintf("R %s %s %s", hs(w.soft), hexSegs(w.segs), leaf())
 	case 'F':
-		return fmt.Sprintf("F %d %s %s", w.st, hx.Hex(w.text), lines)
+		return fmt.Sprintf("F %d %s %s", w.st, hx.Hex(w.text), leaf())
 	case 'B':
-		return fmt.Sprintf("B %d %s %s", w.st, hx.Hex(w.text), lines)
+		return fmt.Sprintf("B %d %s %s", w.st, hx.Hex(w.text), leaf())
+	case 'D':
+		off := 0
+		c := "n"
+		if w.cursor {
+			off, c = 2, "c"
+		}
+		chCtx := vxfw.DrawContext{
+			Max:        vxfw.Size{Width: ctx.Max.Width - uint16(off), Height: 65535},
+			Characters: ctx.Characters,
+		}
+		parts := []string{fmt.Sprintf("D %s %d %d", c, w.gap, len(w.drawn))}
+		for _, i := range w.drawn {
+			parts = append(parts, w.kids[i].tokens(chCtx, res))
+		}
+		return strings.Join(parts, " ")
 	}
 	panic("bad widget kind")
+}
+
+func dumpSizes(sb *strings.Builder, s *vxfw.Surface, depth, col, row, z int) {
+	if sb.Len() > 0 {
+		sb.WriteByte(';')
+	}
+	fmt.Fprintf(sb, "%d:%d:%d:%d:%d:%d:%d", depth, col, row, z, s.Size.Width, s.Size.Height, len(s.Buffer))
+	for i := range s.Children {
+		ch := &s.Children[i]
+		dumpSizes(sb, &ch.Surface, depth+1, ch.Origin.Col, ch.Origin.Row, ch.ZIndex)
+	}
 }
 
 func dumpNode(sb *strings.Builder, s *vxfw.Surface, depth, col, row, z int) {
@@ -500,21 +586,31 @@ func doDraw(r *hx.Run, c dctx, w *wspec) (op, impl string, ok bool) {
 		Max:        vxfw.Size{Width: uint16(c.maxW), Height: uint16(c.maxH)},
 		Characters: vaxis.Characters,
 	}
-	lines, nLines, capped, sp, smsg := scanLines(w.leaf(), ctx)
-	if sp {
+	// the real Draw first: which items a Dynamic draws is an outcome of the run
+	widget := w.build()
+	var s vxfw.Surface
+	var err error
+	panicked, msg := hx.Guard(func() {
+		s, err = widget.Draw(ctx)
+	})
+	var tr tokRes
+	toks := w.tokens(ctx, &tr)
+	if tr.panicked {
 		r.Count("scanner-panic")
-		r.Count("scanner-panic: " + normMsg(smsg))
+		r.Count("scanner-panic: " + normMsg(tr.msg))
 		return "", "", false
 	}
-	if capped {
+	if tr.capped {
 		r.Count("scanner-capped")
-		if c.maxH >= 65535 {
+		if c.maxH >= 65535 || w.hasDynamic() {
 			// Draw's row guard never fires: it would consume every line
 			r.Count("skipped:capped-unbounded")
 			return "", "", false
 		}
 	}
+	nLines := tr.nLines
 	switch {
+	case w.hasDynamic():
 	case nLines == 0:
 		r.Count("lines:0")
 	case nLines <= c.maxH:
@@ -526,15 +622,13 @@ func doDraw(r *hx.Run, c dctx, w *wspec) (op, impl string, ok bool) {
 	default:
 		r.Count("lines:>maxH+1")
 	}
-	op = fmt.Sprintf("draw %d,%d,%d,%d %s", c.minW, c.minH, c.maxW, c.maxH, w.tokens(lines))
-	widget := w.build()
-	var s vxfw.Surface
-	var err error
-	panicked, msg := hx.Guard(func() {
-		s, err = widget.Draw(ctx)
-	})
+	kind := "draw"
+	if w.hasDynamic() {
+		kind = "drawz"
+	}
+	op = fmt.Sprintf("%s %d,%d,%d,%d %s", kind, c.minW, c.minH, c.maxW, c.maxH, toks)
 	if panicked {
-		if strings.Contains(msg, "must have bounded constraints") {
+		if strings.Contains(msg, "must have bounded constraints") || strings.Contains(msg, "cannot have unbounded height or width") {
 			r.Count("draw-result:panic:explicit")
 			return op, "panic:explicit", true
 		}
@@ -547,7 +641,11 @@ func doDraw(r *hx.Run, c dctx, w *wspec) (op, impl string, ok bool) {
 	}
 	r.Count("draw-result:surface")
 	var sb strings.Builder
-	dumpNode(&sb, &s, 0, 0, 0, 0)
+	if kind == "drawz" {
+		dumpSizes(&sb, &s, 0, 0, 0, 0)
+	} else {
+		dumpNode(&sb, &s, 0, 0, 0, 0)
+	}
 	return op, sb.String(), true
 }
 
@@ -719,6 +817,7 @@ func genDraw(r *hx.Run, rng *gen.Rng) {
 		emitDraw(r, c, mkWidget(rng, sh, ct))
 		r.Count("draw:random")
 	}
+	genDynamic(r, rng.Fork(5))
 	if r.Thorough {
 		// 65536 lines: the uint16 height counters wrap
 		big := lineN("a", 65536)
@@ -738,6 +837,82 @@ func genDraw(r *hx.Run, rng *gen.Rng) {
 		emitDraw(r, dctx{0, 0, 2, 255}, mkWidget(rng, shapeT{'T', false, 1}, big))
 		r.Count("draw:65536-lines")
 		r.Count("draw:65536-lines")
+	}
+}
+
+// list.Dynamic: items Text (1..6 lines, soft/hard), RichText, TextField, and the widgets that cannot
+// live in a list (Button, Center, another Dynamic: they get an unbounded height and panic).
+func dynItem(rng *gen.Rng, depth int) *wspec {
+	k := rng.Intn(20)
+	switch {
+	case k < 8:
+		return mkWidget(rng, shapeT{'T', rng.Bool(), 0}, gen.Pick(rng, []string{"", "hi", "a\nb", "a\nb\nc\nd\ne", "hello world foo", "世界你好", lineN("l", 7), "x y z w v u t s r q p"}))
+	case k < 11:
+		return mkWidget(rng, shapeT{'R', rng.Bool(), 0}, gen.Pick(rng, []string{"hi", "a\nb\nc", "hello world foo"}))
+	case k < 16:
+		return mkWidget(rng, shapeT{'F', false, 0}, gen.Pick(rng, []string{"", "field", "世界"}))
+	case k < 17:
+		return mkWidget(rng, shapeT{'B', false, 0}, "ok")
+	case k < 18:
+		return mkWidget(rng, shapeT{'T', true, 1}, "hi")
+	case k < 19 && depth < 2:
+		return mkDynamic(rng, depth+1)
+	}
+	return mkWidget(rng, shapeT{'T', true, 0}, randText(rng, 10))
+}
+
+func mkDynamic(rng *gen.Rng, depth int) *wspec {
+	w := &wspec{kind: 'D', cursor: rng.Chance(2, 5), gap: gen.Pick(rng, []int{0, 0, 0, 1, 2})}
+	n := gen.Pick(rng, []int{0, 1, 2, 3, 3, 4, 6, 9})
+	for i := 0; i < n; i++ {
+		w.kids = append(w.kids, dynItem(rng, depth))
+	}
+	return w
+}
+
+func genDynamic(r *hx.Run, rng *gen.Rng) {
+	per := 3
+	if r.Thorough {
+		per = 20
+	}
+	emit := func(c dctx, w *wspec) {
+		if w.cursor && c.maxH > 2000 && c.maxH < 65535 {
+			// the gutter loop writes two cells per row; keep the model's buffer small
+			c.maxW = c.maxW % 7
+		}
+		emitDraw(r, c, w)
+		r.Count("draw:dynamic")
+		for w.kind == 'C' {
+			w = w.child
+		}
+		if len(w.drawn) < len(w.kids) {
+			r.Count("dynamic:drew-a-prefix")
+		} else {
+			r.Count("dynamic:drew-all")
+		}
+		r.Count(fmt.Sprintf("dynamic:drawn=%d", len(w.drawn)))
+		for _, i := range w.drawn {
+			r.Count("dynamic:item:" + w.kids[i].shape())
+		}
+	}
+	for _, mw := range consV {
+		for _, mh := range consV {
+			for i := 0; i < per; i++ {
+				w := mkDynamic(rng, 0)
+				if rng.Chance(1, 6) {
+					w = wrapC(1, w)
+				}
+				emit(dctx{0, 0, mw, mh}, w)
+			}
+		}
+	}
+	n := 400
+	if r.Thorough {
+		n = 6000
+	}
+	for i := 0; i < n; i++ {
+		w := mkDynamic(rng, 0)
+		emit(dctx{0, 0, rng.Intn(13), rng.Intn(13)}, w)
 	}
 }
 
@@ -1342,59 +1517,80 @@ func unhex(s string) (string, bool) {
 	return string(b), true
 }
 
-func parseWidget(f []string, fuel int) (*wspec, bool) {
+// parseWidget parses one widget from the front of f and returns the rest.
+func parseWidget(f []string, fuel int) (*wspec, []string, bool) {
 	if fuel == 0 || len(f) == 0 {
-		return nil, false
+		return nil, nil, false
 	}
 	switch f[0] {
 	case "C":
-		ch, ok := parseWidget(f[1:], fuel-1)
+		ch, rest, ok := parseWidget(f[1:], fuel-1)
 		if !ok {
-			return nil, false
+			return nil, nil, false
 		}
-		return &wspec{kind: 'C', child: ch}, true
+		return &wspec{kind: 'C', child: ch}, rest, true
 	case "T":
-		if len(f) != 5 || (f[1] != "h" && f[1] != "s") {
-			return nil, false
+		if len(f) < 5 || (f[1] != "h" && f[1] != "s") {
+			return nil, nil, false
 		}
 		st, ok1 := atoi(f[2])
 		txt, ok2 := unhex(f[3])
 		if !ok1 || !ok2 || st < 0 || st > 255 {
-			return nil, false
+			return nil, nil, false
 		}
-		return &wspec{kind: 'T', soft: f[1] == "s", st: st, text: txt}, true
+		return &wspec{kind: 'T', soft: f[1] == "s", st: st, text: txt}, f[5:], true
 	case "R":
-		if len(f) != 4 || (f[1] != "h" && f[1] != "s") {
-			return nil, false
+		if len(f) < 4 || (f[1] != "h" && f[1] != "s") {
+			return nil, nil, false
 		}
 		w := &wspec{kind: 'R', soft: f[1] == "s"}
 		if f[2] != "-" {
 			for _, p := range strings.Split(f[2], "|") {
 				kv := strings.SplitN(p, "=", 2)
 				if len(kv) != 2 {
-					return nil, false
+					return nil, nil, false
 				}
 				tag, ok1 := atoi(kv[0])
 				txt, ok2 := unhex(kv[1])
 				if !ok1 || !ok2 || tag < 0 || tag > 255 {
-					return nil, false
+					return nil, nil, false
 				}
 				w.segs = append(w.segs, seg{tag, txt})
 			}
 		}
-		return w, true
+		return w, f[4:], true
 	case "F", "B":
-		if len(f) != 4 {
-			return nil, false
+		if len(f) < 4 {
+			return nil, nil, false
 		}
 		st, ok1 := atoi(f[1])
 		txt, ok2 := unhex(f[2])
 		if !ok1 || !ok2 || st < 0 || st > 255 {
-			return nil, false
+			return nil, nil, false
 		}
-		return &wspec{kind: f[0][0], st: st, text: txt}, true
+		return &wspec{kind: f[0][0], st: st, text: txt}, f[4:], true
+	case "D":
+		if len(f) < 4 || (f[1] != "c" && f[1] != "n") {
+			return nil, nil, false
+		}
+		gap, ok1 := atoi(f[2])
+		k, ok2 := atoi(f[3])
+		if !ok1 || !ok2 || k < 0 || k > 1000 {
+			return nil, nil, false
+		}
+		w := &wspec{kind: 'D', cursor: f[1] == "c", gap: gap}
+		rest := f[4:]
+		for i := 0; i < k; i++ {
+			ch, r2, ok := parseWidget(rest, fuel-1)
+			if !ok {
+				return nil, nil, false
+			}
+			w.kids = append(w.kids, ch)
+			rest = r2
+		}
+		return w, rest, true
 	}
-	return nil, false
+	return nil, nil, false
 }
 
 var gidRev map[uint32]string
@@ -1511,7 +1707,7 @@ func runOp(r *hx.Run, f []string) (op, impl string, ok bool) {
 		}
 		op, impl = doWs(r, v[0], v[1], v[2], v[3])
 		return op, impl, true
-	case "draw":
+	case "draw", "drawz":
 		if len(f) < 3 {
 			return "", "", false
 		}
@@ -1527,8 +1723,8 @@ func runOp(r *hx.Run, f []string) (op, impl string, ok bool) {
 			}
 			v[i] = x
 		}
-		w, ok := parseWidget(f[2:], 8)
-		if !ok {
+		w, rest, ok := parseWidget(f[2:], 12)
+		if !ok || len(rest) != 0 {
 			return "", "", false
 		}
 		return doDraw(r, dctx{v[0], v[1], v[2], v[3]}, w)
@@ -1598,6 +1794,7 @@ func run(r *hx.Run) error {
 	}
 	r.Note("exhaustive", false)
 	r.Note("ws", "all sizes W,H in {0,1,2,255,256,257,300} x boundary classes of col {0,1,W-1,W,W+1,65535} and row {0,1,H-1,H,H+1,H/2,65535,(218,219 for W=300)}; same in both tiers")
+	r.Note("drawz", "list.Dynamic (fresh scroll state, DrawCursor on/off, Gap 0..2) with 0..9 items Text/RichText/TextField and the widgets a list cannot hold (Button, Center, Dynamic), also inside a Center, for Max in V x V and random small Max; the items Draw drew are recorded by wrapping the Builder's widgets; sizes and origins compared")
 	r.Note("draw", "13 widget shapes (T h/s, R h/s, F, B, Center nestings to depth 3) x Max in V x V, V={0,1,2,3,5,80,255,256,65534,65535}, x fixed contents (quick: 4-5 per constraint, thorough: all 11), plus random contents/constraints/nonzero Min; thorough adds a 65536-line text; lines from the real scanners; Center/Button with Max.W*Max.H > 2e6 (both bounded) skipped")
 	r.Note("render", "hand-built Surface trees on screens 1..6 x 1..4 painted through the hook that evaluates App.Run's render call: families (one 2x2 child at every offset with a 1x1 grandchild; two 2x1 children with z pairs; every root size 0..5 x 0..4 on a 4x3 screen with a child around the root's corners) and random trees (depth<=3, <=4 children, offsets [-2,parent+2], z in {-1,0,0,1,2}, ~3% malformed buffers); surfaces with more than 65535 cells")
 	r.Note("run", "the root-size family, random trees (60% with a root size different from the screen) and a >65535-cell surface as the root surface of one frame of the real App.Run on a fake console")
